@@ -136,6 +136,9 @@ pub fn body_one(kind: u8, witness: bool) {
     unsafe {
         crate::c09_pattern::MDC_SET = mdc;
     }
+    // the line formatter's instance draws the line number: every value below 65536 (all of u32 did not
+    // finish: 32-bit division circuits on both sides); the others keep 42
+    let line_v: u32 = if kind == 4 { sym::any_u16() as u32 } else { 42 };
     #[cfg(not(kani))]
     {
         log_mdc::clear();
@@ -151,12 +154,35 @@ pub fn body_one(kind: u8, witness: bool) {
             .target(s)
             .module_path(if has { Some("mod") } else { None })
             .file(if has { Some("f.rs") } else { None })
-            .line(if has { Some(42) } else { None })
+            .line(if has { Some(line_v) } else { None })
             .args(format_args!("{}", s))
             .build(),
         kind,
     );
     assert!(res.is_ok());
+    // decimal rendering of the line number (reference: repeated division, most significant digit first)
+    let mut dec = [0u8; 10];
+    let mut dl = 0;
+    {
+        let mut tmp = [0u8; 10];
+        let mut n = line_v;
+        let mut k = 0;
+        while k < 10 {
+            if k == 0 || n > 0 {
+                tmp[dl] = b'0' + (n % 10) as u8;
+                dl += 1;
+                n /= 10;
+            }
+            k += 1;
+        }
+        let mut j = 0;
+        while j < 10 {
+            if j < dl {
+                dec[j] = tmp[dl - 1 - j];
+            }
+            j += 1;
+        }
+    }
     let lvl: &[u8] = match level {
         Level::Error => b"ERROR",
         Level::Warn => b"WARN",
@@ -170,7 +196,7 @@ pub fn body_one(kind: u8, witness: bool) {
         1 | 5 => expect(&sink, &text[..tl], 0, 0),
         2 => expect(&sink, if has { b"mod" } else { b"???" }, 0, 0),
         3 => expect(&sink, if has { b"f.rs" } else { b"???" }, 0, 0),
-        4 => expect(&sink, if has { b"42" } else { b"???" }, 0, 0),
+        4 => expect(&sink, if has { &dec[..dl] } else { b"???" }, 0, 0),
         6 => expect(&sink, b"\n", 0, 0),
         7 => expect(&sink, b"main", 0, 0),
         8 => expect(&sink, b"7", 0, 0),
@@ -186,6 +212,8 @@ pub fn body_one(kind: u8, witness: bool) {
     }
     cover!(kind != 12 || mdc, "the MDC key is set");
     cover!(kind != 12 || !mdc, "the MDC key is absent: default");
+    cover!(kind != 4 || (has && line_v == 0), "line number 0");
+    cover!(kind != 4 || (has && line_v > 9_999), "a five-digit line number");
     cover!(!has, "optional record fields absent");
     cover!(tl >= 3, "text with a multi-byte scalar");
     cover!(matches!(level, Level::Debug), "Debug level");
@@ -223,7 +251,7 @@ harnesses! {
     fn one_module() { body_one(2, false) }
     #[kani::unwind(8)]
     fn one_file() { body_one(3, false) }
-    #[kani::unwind(8)]
+    #[kani::unwind(12)]
     fn one_line() { body_one(4, false) }
     #[kani::unwind(8)]
     fn one_target() { body_one(5, false) }
